@@ -62,6 +62,13 @@ func NewCtx(id, tier string) *Ctx {
 	if v := os.Getenv("VERIF_REPO"); v != "" {
 		c.Repo = v
 	}
+	// check.sh changes into its own directory: a snapshot of /verif (vp run) then writes its
+	// evidence and replay bundles into the snapshot, not into /verif
+	if wd, err := os.Getwd(); err == nil {
+		if _, err := os.Stat(filepath.Join(wd, "properties.jsonl")); err == nil {
+			c.Verif = wd
+		}
+	}
 	c.Scratch = os.Getenv("VERIF_SCRATCH")
 	if c.Scratch == "" {
 		c.Scratch = filepath.Join("/var/tmp", fmt.Sprintf("verif.%d", os.Getpid()))
